@@ -1,0 +1,44 @@
+//go:build verif
+
+package agent
+
+import (
+	"github.com/postalsys/muti-metroo/internal/crypto"
+	"github.com/postalsys/muti-metroo/internal/icmp"
+)
+
+// VerifICMPHandler returns the exit-side ICMP handler (verification harness only).
+func (a *Agent) VerifICMPHandler() *icmp.Handler { return a.icmpHandler }
+
+// VerifICMPIngressKeys returns, per first-hop stream id, the session key of
+// every ingress-side ICMP session (SOCKS5 and WebSocket initiated).
+func (a *Agent) VerifICMPIngressKeys() map[uint64]*crypto.SessionKey {
+	out := map[uint64]*crypto.SessionKey{}
+	a.icmpIngressMu.RLock()
+	for id, s := range a.icmpIngressByStream {
+		s.mu.RLock()
+		out[id] = s.SessionKey
+		s.mu.RUnlock()
+	}
+	a.icmpIngressMu.RUnlock()
+	a.icmpWSSessionMu.RLock()
+	for id, s := range a.icmpWSSessionByStream {
+		s.mu.RLock()
+		out[id] = s.SessionKey
+		s.mu.RUnlock()
+	}
+	a.icmpWSSessionMu.RUnlock()
+	return out
+}
+
+// VerifICMPSessionCounts returns the number of ingress-side ICMP sessions
+// (SOCKS5 initiated, WebSocket initiated).
+func (a *Agent) VerifICMPSessionCounts() (socks, ws int) {
+	a.icmpIngressMu.RLock()
+	socks = len(a.icmpIngressByStream)
+	a.icmpIngressMu.RUnlock()
+	a.icmpWSSessionMu.RLock()
+	ws = len(a.icmpWSSessionByStream)
+	a.icmpWSSessionMu.RUnlock()
+	return
+}
